@@ -120,6 +120,18 @@ pub fn symbol_chain_complaint(p: &ReadProblem) -> Option<String> {
         }
     }
     let mut want: Vec<String> = p.symbols.clone();
+    // constants of sort symbol that the formulas use, declared or not (placeholders, which are declared as function constants, are no symbols)
+    let placeholders: Vec<String> = p.text.lines().filter(|l| l.starts_with("tff(type_function_constant")).filter_map(|l| l.splitn(3, ", ").nth(2).map(|r| r.split(':').next().unwrap_or("").trim().to_string())).collect();
+    let mut rest = p.text.as_str();
+    while let Some(i) = rest.find("f__symbolic__(") {
+        rest = &rest[i + "f__symbolic__(".len()..];
+        let end = if rest.starts_with('\'') { rest[1..].find('\'').map(|j| j + 2) } else { rest.find(|c: char| !(c.is_ascii_alphanumeric() || c == '_')) };
+        if let Some(e) = end {
+            let w = &rest[..e];
+            let name = w.trim_matches('\'').to_string();
+            if rest[e..].starts_with(')') && !w.is_empty() && !w.chars().next().unwrap().is_ascii_uppercase() && !placeholders.iter().any(|q| q == w) && !want.contains(&name) { want.push(name); }
+        }
+    }
     want.sort();
     let expected: Vec<(String, String)> = want.windows(2).map(|w| (w[0].clone(), w[1].clone())).collect();
     let mut got = links.clone();
@@ -146,6 +158,7 @@ pub fn refutes(p: &ReadProblem, dom: &Domain, m: &Ht) -> bool {
 const PROP: &[&str] = &[
     "p :- q.", "p :- not not q.", "p :- q, not not q.", "p :- q. p :- q, r.", "p :- not q.", "p :- not q. q :- not p.", "{p}.", "p :- not not p.", "{p} :- q.",
     "p :- q. :- not p, q.", ":- p, not p.", "p. q :- p.", "p. q.", ":- p.", ":- not not p.", "p :- p.", "{p} :- not not q.", "p :- q. q :- p.", "p :- not p.", "q. p :- not not q.", "{p}. :- not p.",
+    ":- not p.", ":- not p, not q.", "p :- not p. :- not p.", ":- not p. q :- p.", ":- not not p, not q.", "p :- not q. :- not q.",
 ];
 const FO: &[&str] = &[
     "p(X) :- q(X).", "p(X) :- q(X), X = X.", "p(X+1) :- q(X).", "p(Y) :- q(X), Y = X+1.", "p(1..2).", "p(1). p(2).", "p(X) :- q(X), not not p(X).", "{p(X)} :- q(X).", "p(X) :- q(X), not r(X).",
